@@ -28,10 +28,12 @@ func TestCheck(t *testing.T) {
 		r.Rule("(1) util.GetShardID vs a written-out FNV-1a/32 on random byte strings (empty, NUL, UTF-8, up to 4 KiB, near-collisions) x N in [1,65536] (small N over-sampled): in range, repeatable, equal; " +
 			"(2) gateway side: the real clientsets.NewClientSetsWithRestConfig against K real limiter servers (real rateLimiter + real HTTP dispatcher, scripted leader tables naming the servers' URLs): " +
 			"ShardIDFor == (1) and every allocate (PUT .../status) / acquire (POST .../acquire) for random upstream names arrives at the server the table names for the shard; then one (thorough: several) leadership move(s), " +
-			"requests may reach the old or the new leader until the first arrival at the new one, afterwards only the new one; " +
+			"requests may reach the old or the new leader until the first arrival at the new one, afterwards only the new one; then the fleet is re-deployed behind the same URLs with a larger and then a smaller shard count " +
+			"(thorough: more): once never-seen probe names show the new N and every new shard's leader, every name looked up under the old N must map by FNV-1a/32 mod the NEW N and arrive at that shard's leader; " +
 			"(3) server side: random histories of gain / loss (callback and table-only + leaderCheck) per shard interleaved with UpdateRateLimitConditionStatus / DoAcquire / cluster add-update-delete / cleanupUnknownCondition " +
 			"for random upstream names (arbitrary bytes): while not leader the call must fail naming the table's leader (handler: silently) and the contents of every shard store (conditions + per-instance counts) must be unchanged; " +
 			"after a loss the shard has no store; after a regain nothing of the earlier epoch is visible; ServerInfo().ManagedShards == shards led; " +
+			"(3b) one (thorough: three) fault scenario on the k8s store: API writes fail exactly while the shard is lost (final flush fails, ~20 s of retries), an interim leader rewrites/deletes conditions in the API, the shard is regained: no store after the loss, and afterwards only what the API holds is visible (no in-flight count, no condition absent from or different from the API); " +
 			"(4) k8s store over the generated fake clientset: Save of a foreign-shard condition refused (nothing written to the API or kept locally), Load keeps only own-shard conditions. " +
 			"Non-trivial = names/histories that exercise a refusal or a leadership change; distinct = hash of the name+N resp. of the history trace.")
 		r.Assume("between an election loss and the next leaderCheck the lost shard's store still exists; removing things from it (cleanup passes) is conforming (the statement demands the discard), writing into it is not")
@@ -42,6 +44,18 @@ func TestCheck(t *testing.T) {
 			defer wg.Done()
 			gatewaySide(r, gwRng)
 		}()
+		// one leadership loss whose final flush fails costs ~20 s of wall time in the real code (10 x 2 s retries): it runs
+		// next to everything else (thorough: both loss paths plus one more)
+		nFlush := r.N(1, 3)
+		for k := 0; k < nFlush; k++ {
+			wg.Add(1)
+			fr := r.Rng.Fork(fmt.Sprintf("flushfail-%d", k))
+			viaLeaderCheck := k%2 == 1
+			go func() {
+				defer wg.Done()
+				flushFailScenario(r, fr, viaLeaderCheck)
+			}()
+		}
 		shardFn(r)
 		serverSide(r)
 		k8sStore(r)
@@ -49,6 +63,8 @@ func TestCheck(t *testing.T) {
 		r.Require(r.Counter("shardfn_cases") >= 100000, "too few shard-function cases")
 		r.Require(r.Counter("gw_requests_judged") >= 100, "gateway side judged too few requests")
 		r.Require(r.Counter("gw_moves_converged") >= 1, "gateway side saw no leadership move converge")
+		r.Require(r.Counter("gw_shard_count_grows") >= 1 && r.Counter("gw_shard_count_shrinks") >= 1 && r.Counter("gw_shard_count_changes_converged") >= 2, "gateway side did not see the fleet's shard count grow and shrink")
+		r.Require(r.Counter("srv_flushfail_scenarios") >= 1 && r.Counter("srv_flushfail_conditions_compared_with_api") >= 1, "the flush-failure scenario (k8s store) did not complete")
 		r.Require(r.Counter("srv_refusals_judged") >= 1000, "server side judged too few not-leader calls")
 		r.Require(r.Counter("srv_served_allocate") >= 300 && r.Counter("srv_served_acquire_accepted") >= 300, "server side served too few calls while leading")
 		r.Require(r.Counter("srv_regain_after_dirty_epoch") >= 50, "too few regains after an epoch with state")
